@@ -263,10 +263,40 @@ func (c *Ctx) c12Maps() {
 				nUpd++
 				var org []ssa.Value
 				mapOrigins(m, map[ssa.Value]bool{}, &org)
+				// a private helper that fills the map it is handed: the map is its only caller's (followed upwards)
+				for depth := 0; depth < 3; depth++ {
+					var next []ssa.Value
+					changed := false
+					for _, o := range org {
+						prm, isP := o.(*ssa.Parameter)
+						site := ssa.CallInstruction(nil)
+						if isP {
+							site = c.onlyCaller(prm.Parent())
+						}
+						if site == nil {
+							next = append(next, o)
+							continue
+						}
+						for i, hp := range prm.Parent().Params {
+							if hp == prm && i < len(site.Common().Args) {
+								mapOrigins(site.Common().Args[i], map[ssa.Value]bool{}, &next)
+								changed = true
+							}
+						}
+					}
+					org = next
+					if !changed {
+						break
+					}
+				}
 				fresh := len(org) > 0
 				var badOrg string
 				for _, o := range org {
-					if !isFreshMap(o) || o.Parent() != fn {
+					if !isFreshMap(o) {
+						fresh = false
+						badOrg = o.String()
+					}
+					if o.Parent() != fn && (c.onlyCaller(fn) == nil || !c.reachesFn(o.Parent(), fn, 0)) {
 						fresh = false
 						badOrg = o.String()
 					}
@@ -284,7 +314,7 @@ func (c *Ctx) c12Maps() {
 		// the function that builds the session's parameter map: writeParameters itself or a helper it calls, whose
 		// result is the map it built
 		bfn := wp
-		var builderCall *ssa.Call
+		var builderCall, fillerCall *ssa.Call
 		hasUpdates := func(fn *ssa.Function) bool {
 			for _, b := range fn.Blocks {
 				for _, in := range b.Instrs {
@@ -303,6 +333,10 @@ func (c *Ctx) c12Maps() {
 				}
 				if h := core.StaticCallee(call); h != nil && c.P.InPkg(h, "wire") && h.Blocks != nil && hasUpdates(h) && h.Signature.Results().Len() == 1 && core.NamedOf(h.Signature.Results().At(0).Type()) == params {
 					bfn, builderCall = h, call
+					R.Analysed(fname(h))
+				} else if h != nil && c.P.InPkg(h, "wire") && h.Blocks != nil && hasUpdates(h) && h.Signature.Results().Len() == 0 {
+					// a helper that fills the map it is handed
+					bfn, fillerCall = h, call
 					R.Analysed(fname(h))
 				}
 			}
@@ -389,6 +423,18 @@ func (c *Ctx) c12Maps() {
 		}
 		// in writeParameters' terms the announced map is the builder's result
 		builtMap := theMap
+		if fillerCall != nil && theMap != nil {
+			// in writeParameters' terms the map is the argument the filling helper receives; the call precedes the emission
+			builtMap = nil
+			if prm, isP := theMap.(*ssa.Parameter); isP {
+				for i, hp := range bfn.Params {
+					if hp == prm && i < len(fillerCall.Call.Args) {
+						builtMap = fillerCall.Call.Args[i]
+					}
+				}
+			}
+			R.Check(builtMap != nil && rng != nil && core.InstrDominates(fillerCall, rng), "C12.R2", fkey(bfn)+":fills-before-emission", c.at(fillerCall), "the connection's parameters are set on the map before it is announced", "the filling helper receives the map and is called on every path to the emission loop", "the helper that sets the connection's parameters does not run on every path before the emission (or does not update the map it is handed)")
+		}
 		if builderCall != nil {
 			builtMap = builderCall
 			for _, r := range returns(bfn) {
@@ -436,6 +482,49 @@ func (c *Ctx) c12Maps() {
 					}
 					R.Check(before, "C12.R2", "writeParameters:unconditional:"+key, c.at(mu), key+" is set on every path before the parameters are emitted", "the update dominates the emission loop", "the update of "+key+" does not dominate the emission loop")
 				}
+			}
+			// the connection's own values win: nothing is copied into the map after they were set (a bulk copy of the
+			// configured parameters behind the fixed keys lets a configured client_encoding / session_authorization /
+			// server_version override what the server announces about itself)
+			for _, ci := range core.Calls(bfn) {
+				f := core.StaticCallee(ci)
+				if f != nil && f.Origin() != nil {
+					f = f.Origin()
+				}
+				if f == nil || f.Pkg == nil || f.Pkg.Pkg.Path() != "maps" || len(ci.Common().Args) < 2 {
+					continue
+				}
+				switch f.Name() {
+				case "Copy", "Insert":
+				default:
+					continue
+				}
+				var dst []ssa.Value
+				leaves(ci.Common().Args[0], map[ssa.Value]bool{}, &dst)
+				var tm []ssa.Value
+				leaves(theMap, map[ssa.Value]bool{}, &tm)
+				same := false
+				for _, d := range dst {
+					for _, m := range tm {
+						if d == m || d == theMap {
+							same = true
+						}
+					}
+				}
+				if !same {
+					continue
+				}
+				first := true
+				for _, b := range bfn.Blocks {
+					for _, in := range b.Instrs {
+						if mu, ok := in.(*ssa.MapUpdate); ok && !core.InstrDominates(ci, mu) {
+							if _, isK := core.ConstString(mu.Key); isK {
+								first = false
+							}
+						}
+					}
+				}
+				R.Check(first, "C12.R2", "writeParameters:configured-copied-before-fixed-keys", c.at(ci), "server_encoding, client_encoding, is_superuser, session_authorization and server_version are what the server sets, whatever the configured parameters contain", "the bulk copy of the configured parameters precedes every fixed-key update", "configured parameters are copied into the map after the fixed keys were set: a GlobalParameters entry for client_encoding / session_authorization / server_version overrides the value the property prescribes")
 			}
 			// key/value emitted are the iteration's key/value
 			okKV := 0
